@@ -17,6 +17,17 @@ CHECKS = {
         note="Trusted: numpy/scipy semantics of the overridden Generator methods; data values from a finite alphabet; pi is the repo's own log_p_one (C03 ties it to the model).",
         design="4/C01",
     ),
+    "C04": dict(
+        engine="E1 EnumRNG explorer + E2 state space",
+        category="model_checking",
+        technique="stateless exhaustive exploration of every random outcome of each real move (exact transition matrix) + global-balance invariant; block-conditional reversibility for the subtree move",
+        text="Exact transition matrices of DataPointSampler, PruneRegraphSampler, ParticleGibbsSubtreeSampler and of one real "
+             "iteration of the run loop, from every start tree (n<=3, n=4 for dp/prg), outliers on/off, alphas, data alphabet; global "
+             "balance at 1e-10. The subtree move's global balance for n>=3 is a recorded known finding (fingerprinted per config); its "
+             "block-conditional reversibility is checked without exception.",
+        note="Trusted: as C01. Known finding F-C04-subtree-selection in known_findings.json.",
+        design="4/C04",
+    ),
 }
 
 NOT_YET = {}
